@@ -275,6 +275,10 @@ func runC11(c *Ctx) {
 	c.Rule("R11g", "checkpoint files never become pending through the raw listing: every []File returned by Executor.Pending (and every value assigned to its pending variable) is built from SkipCheckpointFiles(…) / FilesFromLastCheckpoint(…) results, slices of them, or the single partially applied checkpoint element", 4)
 	checkPendingSources(c, "R11g")
 
+	// ---- R11h
+	c.Rule("R11h", ruleTextPartialAnywhere, 1)
+	checkPartialAnywhere(c, "R11h")
+
 	// ---- R11e
 	if fi := c.Func("R11e", pMigrate, "", "FilesFromLastCheckpoint"); fi != nil {
 		info := fi.Info()
@@ -641,5 +645,64 @@ func checkPendingSources(c *Ctx, rule string) {
 	})
 	if n == 0 {
 		c.Unresolved(rule, "return statements of Executor.Pending")
+	}
+}
+
+const ruleTextPartialAnywhere = "a partially applied revision is pending wherever it stands: in Executor.Pending every look-up of a file's revision (slices.BinarySearchFunc over the revisions) that excuses the file from being run also requires the matched revision to be complete (reads Applied and Total of revs[i] in the same condition); with non-linear execution a failed out-of-order file is not the last revision"
+
+// checkPartialAnywhere: see ruleTextPartialAnywhere.
+func checkPartialAnywhere(c *Ctx, rule string) {
+	fi := c.Func(rule, pMigrate, "Executor", "Pending")
+	if fi == nil {
+		return
+	}
+	info := fi.Info()
+	n := 0
+	ast.Inspect(fi.Decl.Body, func(m ast.Node) bool {
+		ifs, ok := m.(*ast.IfStmt)
+		if !ok || ifs.Init == nil {
+			return true
+		}
+		as, ok := ifs.Init.(*ast.AssignStmt)
+		if !ok || len(as.Lhs) != 2 || len(as.Rhs) != 1 {
+			return true
+		}
+		call, ok := as.Rhs[0].(*ast.CallExpr)
+		if !ok || len(call.Args) != 3 {
+			return true
+		}
+		fn := calleeOf(info, call)
+		if fn == nil || fn.Pkg() == nil || fn.Pkg().Path() != "slices" || fn.Name() != "BinarySearchFunc" {
+			return true
+		}
+		// searching the revisions for a file
+		st, ok := info.TypeOf(call.Args[0]).Underlying().(*types.Slice)
+		if !ok || !typeIs(derefType(st.Elem()), pMigrate, "Revision") || !typeIs(info.TypeOf(call.Args[1]), pMigrate, "File") {
+			return true
+		}
+		n++
+		idx, _ := as.Lhs[0].(*ast.Ident)
+		okIdx := idx != nil && idx.Name != "_"
+		reads := map[string]bool{}
+		if okIdx {
+			iobj := info.ObjectOf(idx)
+			ast.Inspect(ifs.Cond, func(k ast.Node) bool {
+				se, ok := k.(*ast.SelectorExpr)
+				if !ok {
+					return true
+				}
+				if ix, ok := ast.Unparen(se.X).(*ast.IndexExpr); ok {
+					if id, ok := ast.Unparen(ix.Index).(*ast.Ident); ok && info.ObjectOf(id) == iobj && types.ExprString(ix.X) == types.ExprString(call.Args[0]) {
+						reads[se.Sel.Name] = true
+					}
+				}
+				return true
+			})
+		}
+		c.Check(rule, "migrate.(Executor).Pending|"+types.ExprString(call.Args[0])+" look-up of "+types.ExprString(call.Args[1])+" requires a complete revision", ifs.Pos(), okIdx && reads["Applied"] && reads["Total"], "Executor.Pending treats a file as done as soon as a revision with its version exists, without looking at Applied/Total of that revision: a file that was run out of order (non-linear) and failed half way is never resumed and `migrate status` reports no pending files")
+		return true
+	})
+	if n == 0 {
+		c.Unresolved(rule, "Executor.Pending: the look-up of a file's revision among the applied revisions")
 	}
 }
